@@ -32,6 +32,9 @@ func runC17(c *Ctx) {
 	pooledEscapeRules(c, "C17")
 	// only pooled objects may be put into a pool: a caller's buffer must never end up there
 	c19Pools(c)
+	resultAliasRules(c, "C17")
+	// a buffer handed to NewWriterBuffer stays the caller's beyond its length
+	writerGrowRules(c, "C17")
 }
 
 func c17UnsafeViews(c *Ctx) {
